@@ -6,7 +6,9 @@ HERE = os.path.dirname(os.path.dirname(os.path.abspath(__file__)))
 TECH = ('symbolic execution of the real tracklib functions on z3 proxy values (symx): exhaustive DFS over feasible paths '
         'inside stated bounds, property asserted per path as pc /\\ not(assertion) to z3; sat models replayed on the real code')
 NOTE = ('floats modelled as reals; bounds, stubs and excluded sub-claims are listed in the evidence file (coverage.bounds / stubs / '
-        'outside_claim) and in DESIGN.md; inconclusive (solver-unknown) paths are counted, never reported as success')
+        'outside_claim) and in DESIGN.md; inconclusive (solver-unknown) paths are counted, never reported as success; '
+        'beyond the small exhaustive bounds each check runs scale probes and value-kind / aliasing / leftover-state probes (concrete skeleton, a few symbolic values; DESIGN.md 9.1, 9.2) '
+        'and judges one concrete run of the real code per explored path with its concrete oracle (reported only if a second model of the path agrees; DESIGN.md 10)')
 
 # id -> (level text, design ref, extra note, technique suffix)
 CLAIMED = {
